@@ -89,7 +89,28 @@ def _m_partner(r, a):
     return out
 
 
+def _bad_assign(x, a):
+    """a whole-array assignment that cannot be carried out (wrong number of values, a ragged value of other row lengths, a value the element type
+    cannot hold) -- or one that changes nothing (the array itself as the value): what happened, and the content afterwards"""
+    form, idx = a[0], (Ellipsis if a[1] else ())
+    tot = int(x.size)
+    if form == "flat":
+        r = _refusal(lambda: x.__setitem__(idx, np.arange(a[2]).astype(np.asarray(x.ravel()).dtype)))
+    elif form == "ragged":
+        p = _bad_partner(x, a[3])
+        r = _refusal(lambda: x.__setitem__(idx, p))
+    elif form == "fillnan":
+        r = _refusal(lambda: x.fill(float("nan")))
+    elif form == "colvec":
+        r = _refusal(lambda: x.__setitem__(idx, np.arange(len(x) + 1).reshape(-1, 1)))
+    else:
+        x[idx] = x
+        r = "refused"       # (nothing to refuse: the assignment changes nothing)
+    return [r[:8], x.tolist()]
+
+
 OBS = {
+    "badassign": (_bad_assign, lambda r, a: ["refused", [list(q) for q in r]]),
     "partnerpurity": (_partner_after, _m_partner),
     "tolist": (lambda x, a: x.tolist(), lambda r, a: [list(q) for q in r]),
     "iter": (lambda x, a: [q.tolist() for q in x], lambda r, a: [list(q) for q in r]),
@@ -185,10 +206,11 @@ def _snap_same(o, sn):
 # repr/str of an array with more than 100 cells print a *selection* of it and leave the array itself lazy)
 MATERIALISING = {"tolist", "iter", "ravel", "sum1", "npsum1", "sumall", "nonzero", "add1", "eqself", "cumsum", "sort", "diff", "zeros", "concatself", "astype", "save"}
 READ_OPS = [k for k in OBS]
+NOT_READS = {"badassign"}       # attempted writes (refused, or without effect): part of the programs, never inserted as "extra reads"
 # observations whose result on float data (NaN, inf, -0.0, non-dyadic values) is defined element by element, hence exactly predictable
-FLOAT_OBS = ["reversed", "lenbool", "partnerpurity", "tolist", "iter", "ravel", "meta", "repr", "str", "row", "elem", "rowscol", "pairs", "elem_oob", "rows_oob", "badadd", "ell", "empty", "maskidx", "subset", "padded", "nonzero", "add1", "sel", "rslice",
+FLOAT_OBS = ["reversed", "lenbool", "partnerpurity", "tolist", "iter", "ravel", "meta", "repr", "str", "row", "elem", "rowscol", "pairs", "elem_oob", "rows_oob", "badadd", "badassign", "ell", "empty", "maskidx", "subset", "padded", "nonzero", "add1", "sel", "rslice",
              "getcol", "colcounts", "tonp", "astype", "concatself", "zeros", "diff", "save"]
-FLOAT_READS = FLOAT_OBS + ["sum1", "npsum1", "sumall", "any1", "eqself", "where", "max1", "sort", "unique", "mean1", "mean0", "all1", "min1"]     # fine as *inserted reads* (no model opinion needed)
+FLOAT_READS = [o_ for o_ in FLOAT_OBS if o_ not in NOT_READS] + ["sum1", "npsum1", "sumall", "any1", "eqself", "where", "max1", "sort", "unique", "mean1", "mean0", "all1", "min1"]     # fine as *inserted reads* (no model opinion needed)
 FLOAT_POOL = [0.1, 0.7, 1e17, 1.0, -2.5, 3.25, float("inf"), float("nan"), -0.0, 0.3, 123456.789, -1e-7, float("-inf"), 2.0]
 
 
@@ -208,6 +230,8 @@ def obs_applicable(name, rows):
         return n > 0
     if name in ("badadd", "partnerpurity"):
         return n >= 2 and tot > 0
+    if name == "badassign":
+        return n >= 1 and tot >= 1
     if name == "padded":
         return n > 0
     if name == "tonp":
@@ -257,6 +281,15 @@ def obs_arg(rng, name, rows):
         src = rng.choice([k for k in range(n) if lens[k]])
         dst = rng.choice([k for k in range(n) if k != src])
         return [src, dst, rng.random() < 0.5]
+    if name == "badassign":
+        tot = sum(lens)
+        forms = ["flat", "flat", "self", "colvec"] + (["ragged", "ragged"] if n >= 2 else []) + (["fillnan"] if _CUR["dtype"].startswith(("int", "uint")) else [])
+        form = rng.choice(forms)
+        part = None
+        if form == "ragged":
+            src = rng.choice([k for k in range(n) if lens[k]])
+            part = [src, rng.choice([k for k in range(n) if k != src]), True]
+        return [form, rng.random() < 0.5, rng.choice([k for k in (tot + 1, tot - 1, 2 * tot, 2, 0) if k not in (1, tot)]), part]
     if name == "getcol":
         return rng.randint(0, max(lens) - 1)
     if name in ("maskidx", "subset", "where"):
@@ -301,11 +334,12 @@ def gen_program(rng, tier="quick", allow_hazard=False, nsteps=None, init_rows=No
         via = rng.choice(["fromnumpy", "fromnumpy-F", "tonumpy-called", "unsafe", "unsafe"])       # rectangular contents, built from / converted to a 2-D numpy array; or safe_mode=False
     lens, _ = gen.length_vector(rng, tier, maxrows=5 if tier == "quick" else 8, maxlen=5 if tier == "quick" else 8, stratum="big" if big else ("rect" if (via and via != "unsafe") else None))
     isf = dtype == "float64"
+    _CUR["dtype"] = dtype
     num = (lambda lo, hi: rng.choice(FLOAT_POOL)) if isf else (lambda lo, hi: rng.randint(lo, hi))
     read_ops = FLOAT_OBS if isf else READ_OPS
     read_ops_all = list(read_ops)
     if via == "unsafe":
-        read_ops = [o for o in read_ops if o not in ("elem_oob", "rows_oob", "badadd")]     # refusals are switched off by design -- for this array itself (and its whole-array aliases) only
+        read_ops = [o for o in read_ops if o not in ("elem_oob", "rows_oob", "badadd", "badassign")]     # refusals are switched off by design -- for this array itself (and its whole-array aliases) only
     if init_rows is None:
         init_rows = [[num(-20, 40) for _ in range(l)] for l in lens]
     env = {"a0": copy.deepcopy(init_rows)}
@@ -433,7 +467,13 @@ def gen_program(rng, tier="quick", allow_hazard=False, nsteps=None, init_rows=No
             bufs = (tu.bufs | {tu.own}) if tu.maybe_lazy else {tu.own}
             v = fresh(maybe_lazy=True, bufs=bufs)
             env[v] = [list(r) for r in val]
-            steps.append({"op": "sel", "v": v, "u": u, "rs": rs, "cs": cs, "has_cs": has})
+            st_ = {"op": "sel", "v": v, "u": u, "rs": rs, "cs": cs, "has_cs": has}
+            if rng.random() < 0.15:
+                # the selection is taken from a whole-array alias that nobody keeps: u[...][rows]  (the alias is gone before the selection is first read)
+                st_["tmp"] = rng.choice(["ell", "empty"])
+                materialise(u)
+                track[v].bufs = {tu.own}
+            steps.append(st_)
         elif kind == "alias":
             materialise(u)
             v = fresh(own=track[u].own)
@@ -750,7 +790,11 @@ def run_lib(steps, mode="L", read_plan=None, purity=False, trace=None):
                 env[st["v"]] = RA(flat, lens0)
             groups[st["v"]] = st["v"]
         elif op == "sel":
-            new = env[st["u"]][model.make_index(st["rs"], st["cs"], st["has_cs"])]
+            src_ = env[st["u"]]
+            if st.get("tmp"):
+                src_ = src_[...] if st["tmp"] == "ell" else src_[()]
+            new = src_[model.make_index(st["rs"], st["cs"], st["has_cs"])]
+            del src_
         elif op == "alias":
             env[st["v"]] = env[st["u"]][...] if st["form"] == "ell" else env[st["u"]][()]
             groups[st["v"]] = groups[st["u"]]
